@@ -23,7 +23,7 @@ import (
 	"verif/ev"
 )
 
-var c05E2EEntries = []string{"adapter.stream", "simple.stream", "nats.client", "nats.server", "nats.sub", "stomp.sub", "http"}
+var c05E2EEntries = []string{"adapter.stream", "simple.stream", "nats.client", "nats.server", "nats.sub", "stomp.sub", "http", "http.client"}
 
 // waitFor polls cond up to d.
 func waitFor(d time.Duration, cond func() bool) bool {
@@ -314,6 +314,43 @@ func execC05E2EInner(c c05Case) *ev.Failure {
 		r, err := cl.Echo(frugal.NewFContext("").SetTimeout(5*time.Second), "after")
 		if err != nil || r != "echo:after" {
 			return ev.Failf("http-later-message", "request after a hostile body: %q, %v", r, err)
+		}
+		return nil
+
+	case "http.client":
+		// a peer HTTP server answers the first call with the hostile body and every later call properly
+		var n int64
+		ts := httptest.NewServer(http.HandlerFunc(func(w http.ResponseWriter, r *http.Request) {
+			reqBody, _ := io.ReadAll(r.Body)
+			if atomic.AddInt64(&n, 1) == 1 {
+				if c.Hdr != "" {
+					var code int
+					fmt.Sscan(c.Hdr, &code)
+					w.WriteHeader(code)
+				}
+				if c.Raw {
+					w.Write(data)
+				} else {
+					w.Write([]byte(base64.StdEncoding.EncodeToString(data)))
+				}
+				return
+			}
+			opid := ""
+			if raw, err := base64.StdEncoding.DecodeString(string(reqBody)); err == nil && len(raw) > 4 {
+				if pairs, _, err := refDecodeHeaders(raw[4:]); err == nil {
+					opid = pairsToMap(pairs)["_opid"]
+				}
+			}
+			w.Write([]byte(base64.StdEncoding.EncodeToString(validReply(c.Proto, opid, "ok"))))
+		}))
+		defer ts.Close()
+		hc := &http.Client{Timeout: 5 * time.Second}
+		tr := frugal.NewFHTTPTransportBuilder(hc, ts.URL).Build()
+		cl := newSvcClient(frugal.NewFServiceProvider(tr, pf))
+		cl.Echo(frugal.NewFContext("").SetTimeout(2*time.Second), "first") // any outcome but a crash or a hang
+		r, err := cl.Echo(frugal.NewFContext("").SetTimeout(5*time.Second), "second")
+		if err != nil || r != "ok" {
+			return ev.Failf("http-client-later-message", "call after a hostile HTTP response body: %q, %v", r, err)
 		}
 		return nil
 	}
